@@ -199,6 +199,15 @@ theorem no_deadlock (names : Nat → Name) (evs : List Event)
       | draining => exact ⟨.rDrain, rfl, by simp [step, hr]⟩
       | finishing => exact ⟨.rDone, rfl, by simp [step, hr]⟩
 
+/-- **no_deadlock (termination).**  Every step of the runner's own goroutines strictly decreases
+the measure `mu ids` (sum of the remaining own steps of the calls in `ids` and of the reader), for
+any duplicate-free list `ids` that contains the acting call: together with `no_deadlock`, after the
+client is gone at most `mu ids s` further steps lead to the terminal state — no livelock. -/
+theorem steps_terminate (names : Nat → Name) (ids : List Nat) (hn : ids.Nodup) (s s' : State) (e : Event)
+    (hint : e.internal = true) (hact : ∀ i, e.actor = some i → i ∈ ids)
+    (hs : step names s e = some s') : mu ids s' < mu ids s :=
+  internal_step_decreases names ids hn s s' e hint hact hs
+
 /-- In the terminal state `waitForResponses` returns. -/
 theorem wait_returns (s : State) (ht : Terminal s) : waitEnabled s = true := by
   simp [waitEnabled, ht.1]
@@ -281,6 +290,11 @@ example : readerClosed (run demoNames init (demoFail.take 19)).rpc = true ∧
 /-- the hypotheses of `no_deadlock` are satisfiable (process exited, reader still reading) -/
 example : (run demoNames init (demoFail.take 8 ++ [.pExit 0])).proc ≠ .running ∧
     (run demoNames init (demoFail.take 8 ++ [.pExit 0])).rpc = .reading := by decide
+
+/-- `steps_terminate` on a concrete step: reading the end of stream lowers the measure from 9 to 5 -/
+example : mu [0, 1] (run demoNames init (demoFail.take 8 ++ [.pExit 0])) = 9 ∧
+    (step demoNames (run demoNames init (demoFail.take 8 ++ [.pExit 0])) .rRecvEOF).map (mu [0, 1]) = some 5 := by
+  decide
 
 /-- duplicate name: the second send of name 5 while the first is pending is rejected -/
 example : let s := run (fun _ => 5) init [.sStart 0, .sLock 0, .sRegister 0, .sWriteOk 0, .sStart 1, .sLock 1, .sRegister 1]
